@@ -972,3 +972,76 @@ pub fn host(rep: &common::Report, prop: &str, thorough: bool) {
     rep.set("world_switch_bound", json!(if thorough { "none (every merge of the two stage sequences)".to_string() } else { format!("{bound} switches between the two clients") }));
     rep.assume("world part: real TCP on loopback, one fresh Listener per schedule; a client's stage is complete when the packets that answer it have arrived, 4 ms are left between two actions; each client is compared with the same client served alone by a listener of the same configuration (Keep Alives and volatile fields - tokens, timestamps, session ids, ephemeral ports - aside)");
 }
+
+/// C07 among many: `n` players are inside slow routing at the same time (discovery answers nobody until every one
+/// of them has echoed its first Keep Alive). Each of them must be sent a Keep Alive within 16 s of its Login Success
+/// and must be transferred correctly once routing completes. Returns (players, violations).
+pub fn crowd_kept_alive(n: usize) -> (u64, Vec<(String, String, Value)>) {
+    let out: Mutex<Vec<(String, String, Value)>> = Mutex::new(vec![]);
+    run_local(async {
+        let adapters = Arc::new(WorldAdapters::new(vec![]));
+        let gate = adapters.gate.clone();
+        let cfg = ListenerCfg { timeout: Duration::from_secs(60), ..Default::default() };
+        let running = start_listener_with(&cfg, adapters).await;
+        let addr = running.addr;
+        let echoed = Arc::new(AtomicUsize::new(0));
+        let mut tasks = vec![];
+        for i in 0..n {
+            let echoed = echoed.clone();
+            tasks.push(tokio::task::spawn_local(async move {
+                let name = format!("Crowd{i}");
+                let replay = json!({"world": {"crowd": n, "player": i}});
+                let Ok(mut c) = McClient::connect(addr, Some("127.0.0.4".parse().unwrap())).await else { return Some(("world:crowd-connect-failed".to_string(), name, replay)) };
+                let p = LoginParams { name: name.clone(), uuid: 0xc0 + i as u128, wait: Duration::from_secs(5), ..Default::default() };
+                let mut o = LoginOutcome { packets: vec![], stage: Stage::Connected, error: None };
+                c.login(&p, Stage::Connected, Stage::InConfiguration, &mut o).await;
+                if o.error.is_some() {
+                    echoed.fetch_add(1, Ordering::SeqCst);
+                    return Some(("world:honest-client-not-served".to_string(), format!("{name}: {:?}", o.error), replay));
+                }
+                let t0 = std::time::Instant::now();
+                let first = c.read_packet(Duration::from_millis(17_500)).await;
+                let at = t0.elapsed();
+                echoed.fetch_add(1, Ordering::SeqCst);
+                match first {
+                    Ok(Pkt::KeepAlive { id }) if at <= Duration::from_millis(17_000) => {
+                        let _ = c.send(&common::refs::codec::sb_keep_alive(id)).await;
+                    }
+                    other => return Some(("world:waiting-player-not-kept-alive".to_string(), format!("{name}, one of {n} players inside slow routing at the same time, got {other:?} {at:?} after it entered the configuration phase; a Keep Alive is due within 16 s"), replay)),
+                }
+                let mut got = vec![];
+                while let Ok(pk) = c.read_packet(Duration::from_secs(8)).await {
+                    let end = matches!(pk, Pkt::Transfer { .. } | Pkt::ConfDisconnect { .. });
+                    if let Pkt::KeepAlive { id } = &pk {
+                        let _ = c.send(&common::refs::codec::sb_keep_alive(*id)).await;
+                    }
+                    got.push(pk);
+                    if end {
+                        break;
+                    }
+                }
+                let want = world_choice(&vouched(&name), &world_targets()).expect("target");
+                let ok = matches!(got.last(), Some(Pkt::Transfer { host, port }) if host.parse::<IpAddr>().ok() == Some(want.address.ip()) && *port == want.address.port() as i32);
+                if !ok {
+                    return Some(("world:waiting-player-not-routed".to_string(), format!("{name} echoed its Keep Alive, then routing completed: it got {:?}; the strategy's choice is {}", got.iter().map(|p| p.kind()).collect::<Vec<_>>(), want.address), replay));
+                }
+                None
+            }));
+        }
+        // routing completes once everybody has had its first Keep Alive (or has given up waiting for it)
+        let t0 = std::time::Instant::now();
+        while echoed.load(Ordering::SeqCst) < n && t0.elapsed() < Duration::from_secs(25) {
+            tokio::time::sleep(Duration::from_millis(50)).await;
+        }
+        tokio::time::sleep(Duration::from_millis(200)).await;
+        gate.add_permits(n * 2);
+        for t in tasks {
+            if let Ok(Some(v)) = t.await {
+                out.lock().unwrap().push(v);
+            }
+        }
+        running.stop.cancel();
+        let _ = tokio::time::timeout(Duration::from_secs(3), running.done).await;
+    });
+    (n as u64, out.into_inner().unwrap())
+}
